@@ -1,19 +1,20 @@
 (** C08 — correspondence cases: one constructor per public API call, with the observed outcome. *)
 From V.Lib Require Import Base.
-From V.C08 Require Import Sql Model ModelT Spec.
+From V.C08 Require Import Sql Model ModelT ModelP Spec.
 From V.Gen Require Import C08SqlPred.
 Local Open Scope Z_scope.
 
 (** one compute_balance call: the anchor it was given, the offered inputs, the result *)
-Definition oracle_entry := (Z * list (pool * Z) * change_result)%type.
+Definition oracle_entry := (Z * list (pool * Z) * list Z * change_result)%type.
 
 Inductive case :=
 (** InputSource::select_spendable_notes for one pool; observed: sorted note ids *)
 | CSelect (db : list note_row) (e : env) (acct : Z) (p : pool) (tv : tvalue) (pol : policy)
           (exclude : list (pool * Z)) (lf : lockfilter) (obs : outcome (list Z) sel_err)
 (** propose_transfer; [oracle] is the log of the change strategy's compute_balance calls *)
-| CPropose (db : list note_row) (e : env) (acct : Z) (pay : Z) (single_payment orchard_out : bool)
-           (permitted : list pool) (pol : policy) (lp : lip) (lock : option (Z * Z)) (canon : option canon_in)
+| CPropose (db : list note_row) (udb : list utxo_row) (e : env) (acct : Z) (pay : Z) (single_payment orchard_out : bool)
+           (permitted : list pool) (pol : policy) (zero_conf : bool) (lp : lip) (tspend : option (option (list Z)))
+           (lock : option (Z * Z)) (canon : option canon_in)
            (oracle : list oracle_entry) (obs : outcome (list step) perr)
 (** OutputLockStore::lock_outputs; [post] is the row dump afterwards *)
 | CLock (db : list note_row) (tip : option Z) (refs : list (pool * Z)) (owner expiry : Z)
@@ -47,8 +48,10 @@ Definition sort_refs (l : list (pool * Z)) : list (pool * Z) := fold_right inser
 
 Definition refs_eqb (a b : list (pool * Z)) : bool := list_eqb ref_eqb a b.
 
-Definition oracle_fn (o : list oracle_entry) (anchor : Z) (inputs : list note_row) : change_result :=
-  match find (fun en => (fst (fst en) =? anchor) && refs_eqb (snd (fst en)) (sort_refs (refs_of inputs))) o with
+Definition oracle_fn (o : list oracle_entry) (anchor : Z) (inputs : list note_row) (tins : list utxo_row) : change_result :=
+  match find (fun en => let '(a, refs, tids, _) := en in
+                        (a =? anchor) && refs_eqb refs (sort_refs (refs_of inputs))
+                        && list_eqb Z.eqb tids (sort_z (map u_id tins))) o with
   | Some en => snd en
   | None => OErr
   end.
@@ -115,10 +118,10 @@ Definition run_case (c : case) : bool :=
         (match select_notes db e acct p tv pol exclude lf with
          | Ok l => Ok (sort_z (map r_id l)) | Err x => Err x | Panic => Panic end)
         obs
-  | CPropose db e acct pay single_payment orchard_out permitted pol lp lock canon oracle obs =>
+  | CPropose db udb e acct pay single_payment orchard_out permitted pol zc lp tspend lock canon oracle obs =>
       outcome_eqb (list_eqb step_eqb) perr_eqb
-        (propose_transfer (oracle_fn oracle) FUEL db e (Some (e_target e - 1)) acct pay single_payment orchard_out
-                          permitted pol lp lock canon)
+        (propose_transfer (oracle_fn oracle) FUEL db udb e (Some (e_target e - 1)) acct pay single_payment orchard_out
+                          permitted pol zc lp tspend lock canon)
         obs
   | CLock db tip refs owner expiry obs post =>
       match lock_outputs tip owner expiry refs db, obs with
@@ -173,13 +176,21 @@ Definition prop_case_s (c : case) : bool :=
               && forallb (fun i => negb (existsb (ref_eqb (p, i)) exclude)) ids
           end
       end
-  | CPropose db e acct pay single_payment orchard_out permitted pol lp lock canon oracle obs =>
+  | CPropose db udb e acct pay single_payment orchard_out permitted pol zc lp tspend lock canon oracle obs =>
       match obs with
       | Panic => false
       | Err _ => true
       | Ok steps =>
           let all_refs := concat (map s_inputs steps) in
+          let all_tids := concat (map s_tins steps) in
           nodup_refs all_refs
+          && nodup_z all_tids
+          (* coins: of the account, at a listed address when the policy lists any, spendable, not locked by another owner *)
+          && forallb (fun i => match tspend, find_utxo udb i with
+                               | Some allow, Some u =>
+                                   utxo_spendable_acct (e_target e) (minconf pol zc) CbNon acct allow
+                                     (Some (overridable (LFPolicy lp))) u
+                               | _, _ => false end) all_tids
           && forallb (fun x => existsb (pool_eqb (fst x)) permitted) all_refs
           && forallb (fun s =>
                (* spendable AT THE ANCHOR THE STEP BINDS, under the caller's policy *)
@@ -189,7 +200,8 @@ Definition prop_case_s (c : case) : bool :=
                    all_spendable db (fun q => SC acct q (e_target e) a (tip_unscanned e q a) pol
                                                   (Some (overridable (LFPolicy lp)))) (s_inputs s)
                end
-               && (s_in_value s =? value_of_refs db (s_inputs s)) && match s_tins s with [] => true | _ => false end
+               && (s_in_value s =? value_of_refs db (s_inputs s)
+                                   + fold_right (fun i a => match find_utxo udb i with Some u => u_value u + a | None => a end) 0 (s_tins s))
                && step_balanced s) steps
           && (fold_right (fun s a => s_pay s + a) 0 steps =? pay)
       end
@@ -285,13 +297,20 @@ Definition tag_z (c : case) : Z :=
               end
           end
       end
-  | CPropose _ e _ _ _ _ _ _ _ lock canon oracle obs =>
-      if existsb (fun en => match snd en with ODust _ => true | _ => false end) oracle then 17 else
+  | CPropose _ _ e _ _ _ _ _ _ _ _ tspend lock canon oracle obs =>
+      if existsb (fun en => match snd en with ODust _ _ => true | _ => false end) oracle then 17 else
       match obs with
       | Ok [s] =>
+          if match s_tins s with [] => false | _ => true end then
+            (* transparent inputs in a transfer: 41 first gather sufficed, 42 re-gathered, 43 with an allow list *)
+            match tspend with
+            | Some (Some _) => 43
+            | _ => if (2 <? Z.of_nat (length oracle)) then 42 else 41
+            end
+          else
           if negb (option_eqb Z.eqb (s_anchor s) (e_anchor e)) then 24   (* canonical crossing kept: bucketed anchor *)
           else if match canon with
-                  | Some ci => existsb (fun en => fst (fst en) =? c_boundary ci) oracle
+                  | Some ci => existsb (fun en => fst (fst (fst en)) =? c_boundary ci) oracle
                   | None => false end then 25                            (* canonical attempt made, ordinary proposal returned *)
           else
           match lock with Some _ => 23 | None =>
